@@ -4,6 +4,7 @@ import (
 	"fmt"
 	"math/big"
 	"sort"
+	"time"
 
 	"verif/harness/sim"
 
@@ -350,10 +351,13 @@ func c06Structure(e *sim.Env, c *sim.Call, v *sim.View) {
 
 type C09 struct {
 	tomb     map[string]bool
-	unjailed map[string]bool // unjailed successfully in the current block
+	unjailed map[string]bool      // unjailed successfully in the current block
+	until    map[string]time.Time // the monitor's own record of each validator's jailed-until (set when it observes the jailing)
 }
 
-func NewC09() *C09 { return &C09{tomb: map[string]bool{}, unjailed: map[string]bool{}} }
+func NewC09() *C09 {
+	return &C09{tomb: map[string]bool{}, unjailed: map[string]bool{}, until: map[string]time.Time{}}
+}
 
 func (m *C09) OnCall(e *sim.Env, c *sim.Call) {
 	post := c.Post.View
@@ -385,6 +389,10 @@ func (m *C09) OnCall(e *sim.Env, c *sim.Call) {
 				e.Violate("C09", "unjail-tombstoned", fmt.Sprintf("tombstoned validator %s was unjailed @%d", a, c.H), c)
 			case c.Time.Before(si.JailedUntil):
 				e.Violate("C09", "unjail-too-early", fmt.Sprintf("validator %s unjailed at %v before jailed-until %v", a, c.Time, si.JailedUntil), c)
+			}
+			// the same rule against the monitor's own record (the stored value may have been lost or rewritten)
+			if u, ok := m.until[a]; ok && c.Time.Before(u) {
+				e.Violate("C09", "unjail-too-early/jailed-until-rewritten", fmt.Sprintf("validator %s unjailed at %v; it was jailed until %v (stored jailed-until now %v)", a, c.Time, u, si.JailedUntil), c)
 			}
 			if found && v.Status != 2 {
 				e.Count("c09.unjail_success_not_staked")
@@ -427,7 +435,28 @@ func (m *C09) OnCall(e *sim.Env, c *sim.Call) {
 			if c.Kind != "begin" {
 				e.Violate("C09", "jailed-outside-begin/"+c.Kind, fmt.Sprintf("validator %s was jailed in %s@%d", a, c.Kind, c.H), c)
 			}
+			// jailed for downtime: until block time + DowntimeJailDuration; for a double sign: forever
+			if s := post.Sign[a]; s != nil {
+				cp := sim.ParamsOf(pre)
+				want := c.Time.Add(cp.JailDur)
+				if s.Tombstoned {
+					want = s.JailedUntil
+				}
+				if !s.JailedUntil.Equal(want) {
+					e.Violate("C09", "jailed-until-stamp", fmt.Sprintf("validator %s jailed at %v with DowntimeJailDuration %v: jailed-until stamped %v", a, c.Time, cp.JailDur, s.JailedUntil), c)
+				}
+				m.until[a] = want
+			}
 		}
+	}
+	// a jailed validator must not sit in the power index (that is what gives it power at the next EndBlock)
+	for _, ie := range post.Index {
+		if v, ok := post.Vals[ie.Addr]; ok && v.Jailed {
+			e.Violate("C09", "jailed-in-power-index", fmt.Sprintf("jailed validator %s is listed in the power index after %s@%d (%s)", ie.Addr, c.Kind, c.H, c.Entry.Label), c)
+		}
+	}
+	if c.Kind == "end" && c.Panic != "" && contains(c.Panic, "jailed validator") {
+		e.Violate("C09", "jailed-in-power-index/endblock-panic", fmt.Sprintf("EndBlock@%d panicked on a jailed validator in the staked set: %s", c.H, firstLine(c.Panic)), c)
 	}
 	// tombstone: permanent, and implies jailed
 	for a, s := range post.Sign {
